@@ -446,6 +446,7 @@ package adt
 //@   ensures [label] result0 != nil && result0.Label == f
 //@   ensures [existing] !result1 ==> exists k int :: 0 <= k && k < old(len(n.node.Arcs)) && result0 == old(n.node.Arcs[k])
 //@   ensures [merge] !result1 ==> result0.ArcType == old(result0.ArcType) || (mode < old(result0.ArcType) && old(result0.ArcType) != ArcNotPresent && result0.ArcType == mode)
+//@   ensures [tighten] !result1 && mode < old(result0.ArcType) && old(result0.ArcType) != ArcNotPresent && old(result0.ArcType) != ArcPending ==> result0.ArcType == mode
 //@   ensures [newlen] result1 ==> len(n.node.Arcs) == old(len(n.node.Arcs)) + 1
 //@   ensures [newlast] result1 ==> n.node.Arcs[old(len(n.node.Arcs))] == result0
 //@   ensures [newmode] result1 ==> (result0.ArcType == mode || result0.ArcType == ArcNotPresent) && result0.Parent == n.node
